@@ -147,8 +147,19 @@ def fill_scales_for_dyadic_pyramid(info, target_chunk_size=64,
     if max_scales:
         max_downscale_level = min(max_downscale_level, max_scales)
     max_downscale_level = max(max_downscale_level, 1)
-    info["scales"] = [downscale_info(scale_level)
-                      for scale_level in range(max_downscale_level)]
+    # While only some of the axes are downscaled, the smallest resolution does
+    # not double from one level to the next: the keys can coincide after
+    # rounding (e.g. 0.8 x 0.8 x 1.2 nm gives 1nm twice). Use a finer unit then.
+    units = list(LENGTH_UNITS)
+    for key_unit in units[units.index(key_unit):]:
+        scales = [downscale_info(scale_level)
+                  for scale_level in range(max_downscale_level)]
+        if len({scale_info["key"] for scale_info in scales}) == len(scales):
+            break
+    else:
+        raise NotImplementedError("cannot find a unit that gives distinct "
+                                  "keys to all scales")
+    info["scales"] = scales
     return info
 
 
